@@ -581,6 +581,24 @@ func runScenario(sc *Scenario) {
 		waitNoRotator()
 		return
 	} else {
+		// C13 (with readers): once every call has returned and every reader has released its state, the
+		// files of the segments removed by truncations must be gone: the directory is exactly what the
+		// metadata lists.
+		if wd.fs != nil {
+			_ = wd.w.DeleteRange(1<<61, 1<<61) // wait for a pending rotation
+			st, _ := wd.meta.Current()
+			listed := map[string]bool{}
+			for _, sg := range st.Segments {
+				listed[segment.FileName(sg)] = true
+			}
+			extra := []string{}
+			for _, n := range wd.fs.Names() {
+				if !listed[n] {
+					extra = append(extra, n)
+				}
+			}
+			emit(map[string]any{"ev": "dircheck", "extra": extra, "n": len(extra)})
+		}
 		wd.w.Close()
 	}
 	waitNoRotator()
